@@ -753,7 +753,12 @@ fn judge_wire_fe(prop: &str, sess: &FeSession, res: &FeResult) -> Result<(), Vio
             return v("wire_flags", name, format!("op {k} {name}: header flags {:#x}, expected {:#x}", h.flags, want_flags));
         }
         let want = it.req.body();
-        if *body != want {
+        let same = match &it.req {
+            // 4 bytes of struct tail padding: content not specified (don't-care)
+            FReq::GetInflightFd(_) | FReq::SetInflightFd(_) => body.len() == 24 && body[..20] == want[..20],
+            _ => *body == want,
+        };
+        if !same {
             return v(
                 "wire_body",
                 name,
